@@ -37,28 +37,44 @@ class MonkeyPatchSpec:
 PatchSpec = Union[AssignSpec, MonkeyPatchSpec]
 
 
+def _owns_attr(target: Any, attr: str) -> bool:
+    """True when ``attr`` lives in ``target``'s own namespace (not inherited)."""
+    try:
+        return attr in vars(target)
+    except TypeError:
+        return True
+
+
 @contextmanager
 def apply_patches(specs: list[PatchSpec]) -> Iterator[None]:
-    applied: list[Tuple[Any, str, Any]] = []
+    applied: list[Tuple[Any, str, Any, bool]] = []
     try:
         for s in specs:
             tgt = _resolve(s.target)
             orig = getattr(tgt, s.attr, _MISSING)
+            own = _owns_attr(tgt, s.attr)
             if isinstance(s, AssignSpec):
                 setattr(tgt, s.attr, s.value)
             else:  # MonkeyPatchSpec
                 new_val = s.make_value(None if orig is _MISSING else orig)
                 setattr(tgt, s.attr, new_val)
-            applied.append((tgt, s.attr, orig))
+            applied.append((tgt, s.attr, orig, own))
         yield
     finally:
         # unwind in reverse order
-        for tgt, attr, orig in reversed(applied):
+        for tgt, attr, orig, own in reversed(applied):
             if orig is _MISSING:
                 try:
                     delattr(tgt, attr)
                 except Exception:
                     # if delete_if_missing False, leave as-is
                     pass
+            elif not own:
+                # The attribute was inherited (base class / metaclass): drop our
+                # override instead of pinning the looked-up value on the target.
+                try:
+                    delattr(tgt, attr)
+                except Exception:
+                    setattr(tgt, attr, orig)
             else:
                 setattr(tgt, attr, orig)
